@@ -175,7 +175,9 @@ class JavaDataField(JavaBaseField):
 
     @cached_property
     def hash_code(self) -> str:
-        if self.decl.type_ref.optional:
+        if self.decl.type_ref.type_def.name == "binary":
+            return f"java.util.Arrays.hashCode({self.decl.java.name})"
+        elif self.decl.type_ref.optional:
             return f"({self.decl.java.name} == null ? 0 : {self.decl.java.name}.hashCode())"
         elif self.decl.type_ref.type_def.java.typename == self.decl.type_ref.type_def.java.boxed:
             match self.decl.type_ref.type_def.name:
@@ -198,7 +200,9 @@ class JavaDataField(JavaBaseField):
 
     @cached_property
     def equals(self) -> str:
-        if self.decl.type_ref.optional:
+        if self.decl.type_ref.type_def.name == "binary":
+            return f"java.util.Arrays.equals(this.{self.decl.java.name}, other.{self.decl.java.name})"
+        elif self.decl.type_ref.optional:
             return f"((this.{self.decl.java.name} == null && other.{self.decl.java.name} == null) || (this.{self.decl.java.name} != null && this.{self.decl.java.name}.equals(other.{self.decl.java.name})))"
         elif self.decl.type_ref.type_def.primitive == BaseExternalType.Primitive.enum:
             return f"this.{self.decl.java.name} == other.{self.decl.java.name}"
